@@ -134,6 +134,7 @@ pub struct Ctx {
     pub failed: RefCell<bool>,
     pub real_stdout: RefCell<Option<std::fs::File>>,
     pub inflight_map: RefCell<Option<InflightMap>>,
+    pub shrinking: RefCell<bool>,
 }
 
 impl Ctx {
@@ -237,6 +238,23 @@ impl Ctx {
         new_violation
     }
 
+    /// Turn a list of oracle problems into a verdict: the first problem whose signature is not a listed known
+    /// finding wins (so that a known finding never masks a different violation on the same case); listed ones are
+    /// counted; no problems = pass.
+    pub fn judge(&self, problems: Vec<(String, String)>, nontrivial: bool, classes: Vec<&'static str>) -> Verdict {
+        if problems.is_empty() { return Verdict::Pass { nontrivial, classes }; }
+        if let Some((sig, detail)) = problems.iter().find(|(sig, _)| self.strict || !self.known.is_known(&self.property, sig)) {
+            return Verdict::Fail { sig: sig.clone(), detail: detail.clone() };
+        }
+        // all known: count all but the first here, the first through the normal path
+        if !*self.shrinking.borrow() {
+            let mut r = self.res.borrow_mut();
+            for (sig, _) in problems.iter().skip(1) { *r.known.entry(sig.clone()).or_insert(0) += 1; }
+        }
+        let (sig, detail) = problems[0].clone();
+        Verdict::Fail { sig, detail }
+    }
+
     pub fn add_by_construction(&self, evaluations: u64, nontrivial: u64) {
         let mut r = self.res.borrow_mut();
         r.evaluations += evaluations;
@@ -275,6 +293,7 @@ impl Ctx {
         let failed_flag = RefCell::new(false);
         let result = runner.run(&strategy, |case| {
             let shrinking = *failed_flag.borrow();
+            *self.shrinking.borrow_mut() = shrinking;
             if !shrinking {
                 self.inflight_ser(&case);
             }
@@ -300,6 +319,7 @@ impl Ctx {
             }
         });
         self.clear_inflight();
+        *self.shrinking.borrow_mut() = true; // the re-evaluation of the minimal case below must not count
         match result {
             Ok(()) => {}
             Err(TestError::Fail(_reason, minimal)) => {
@@ -316,6 +336,7 @@ impl Ctx {
                 self.inconclusive(&format!("proptest aborted in section {}: {}", section, reason));
             }
         }
+        *self.shrinking.borrow_mut() = false;
     }
 
     /// Generate one value from a strategy with this context's deterministic rng (for hand-driven loops).
@@ -400,12 +421,12 @@ pub fn normalise_panic(msg: &str) -> String {
     let first = msg.lines().next().unwrap_or("");
     let mut out = String::new();
     let mut prev_digit = false;
-    for ch in first.chars() {
+    for ch in first.chars().filter(|c| *c != '`') {
         if ch.is_ascii_digit() { if !prev_digit { out.push('N'); } prev_digit = true; }
         else { prev_digit = false; out.push(if ch == ' ' { '_' } else { ch }); }
     }
     // cut quoted payloads: keep the part before the first quote or colon-brace
-    let cut = out.find(|c| c == '"' || c == '`' || c == '{').unwrap_or(out.len());
+    let cut = out.find(|c| c == '"' || c == '\'' || c == '{').unwrap_or(out.len());
     let mut s: String = out[..cut].trim_end_matches(|c| c == '_' || c == ':').to_string();
     if s.len() > 80 { let mut c = 80; while !s.is_char_boundary(c) { c -= 1 } s.truncate(c); }
     s
@@ -666,6 +687,7 @@ pub fn make_child_ctx(property: &str, tier: Tier, seed: u64, worker: u32, worker
         failed: RefCell::new(false),
         real_stdout: RefCell::new(None),
         inflight_map: RefCell::new(None),
+        shrinking: RefCell::new(false),
     }
 }
 
